@@ -533,8 +533,9 @@ const preludeFuns = `
 (declare-fun nl_tmod (Int Int) Int)
 (assert (forall ((a Int) (b Int)) (! (=> (and (>= a 0) (> b 0)) (and (>= (nl_div a b) 0) (<= (nl_div a b) a) (= (nl_tdiv a b) (nl_div a b)))) :pattern ((nl_div a b)))))
 (assert (forall ((a Int) (b Int)) (! (=> (and (>= a 0) (> b 0)) (and (>= (nl_tdiv a b) 0) (<= (nl_tdiv a b) a) (= (nl_tdiv a b) (nl_div a b)))) :pattern ((nl_tdiv a b)))))
-(assert (forall ((a Int) (b Int)) (! (=> (> b 0) (and (>= (nl_mod a b) 0) (< (nl_mod a b) b))) :pattern ((nl_mod a b)))))
+(assert (forall ((a Int) (b Int)) (! (and (=> (> b 0) (and (>= (nl_mod a b) 0) (< (nl_mod a b) b))) (=> (< b 0) (and (>= (nl_mod a b) 0) (< (nl_mod a b) (- b))))) :pattern ((nl_mod a b)))))
 (assert (forall ((a Int) (b Int)) (! (=> (and (>= a 0) (> b 0)) (and (>= (nl_tmod a b) 0) (< (nl_tmod a b) b))) :pattern ((nl_tmod a b)))))
+(assert (forall ((a Int) (b Int)) (! (=> (and (>= a 1) (>= b 2)) (< (nl_div a b) a)) :pattern ((nl_div a b)))))
 (assert (forall ((a Int)) (! (= (nl_div a 1) a) :pattern ((nl_div a 1)))))
 (assert (forall ((a Int)) (! (= (nl_tdiv a 1) a) :pattern ((nl_tdiv a 1)))))
 (declare-fun band (Int Int) Int)
